@@ -186,6 +186,8 @@ def n0pretty(
         if pairs_in_one_line and isinstance(item, (list, tuple)) and keys_and_max_len_of_value:
             # Sturcture contains 2 items together
             for sub_item in item:
+                if skip_empty_arrays and not sub_item:
+                    continue  # empty record
                 if result:
                     result += "," + indent()
                 result += "{"
@@ -288,7 +290,10 @@ def n0pretty(
                     if not sub_item_value:
                         sub_item_value = str(sub_item_value) # None
 
-                    sub_item_value = f"{key_type}{key}:" + (" " if __indent_size else "") + sub_item_value
+                    if skip_empty_arrays and sub_item_value == "":
+                        sub_item_value = None  # the value is a skipped empty container: skip the entry as well
+                    else:
+                        sub_item_value = f"{key_type}{key}:" + (" " if __indent_size else "") + sub_item_value
 
                 else:
                     # set, frozenset or list/tuple with complex or not paired structure
@@ -298,7 +303,7 @@ def n0pretty(
                         sub_item_value = ""
 
                     if indent_ < 111:
-                        sub_item_value += str(n0pretty(
+                        sub_item_pretty = str(n0pretty(
                                                 sub_item,
                                                 indent_ + 1,
                                                 show_type,
@@ -311,6 +316,10 @@ def n0pretty(
                                                 auto_quotes,
                                                 show_item_count,
                         ))
+                        if skip_empty_arrays and sub_item_pretty == "":
+                            sub_item_value = None  # skipped empty container
+                        else:
+                            sub_item_value += sub_item_pretty
                     else:
                         sub_item_value = "[.......]"
 
